@@ -78,10 +78,13 @@ pub struct EpCfg {
     pub retries: usize,
     /// scripted flow ids (then a counter based at `(ep+1) << 28`)
     pub ids: Vec<u32>,
+    /// keepalive [interval, timeout] in ms; 0 = none
+    #[serde(default)]
+    pub keepalive_ms: [u64; 2],
 }
 impl Default for EpCfg {
     fn default() -> Self {
-        EpCfg { rwnd: 4, threshold: 2, dgram_buf: 8, stream_buf: 4, bind_buf: 0, retries: 3, ids: vec![] }
+        EpCfg { rwnd: 4, threshold: 2, dgram_buf: 8, stream_buf: 4, bind_buf: 0, retries: 3, ids: vec![], keepalive_ms: [0, 0] }
     }
 }
 impl EpCfg {
@@ -93,6 +96,8 @@ impl EpCfg {
             .stream_buffer_size(self.stream_buf)
             .bind_buffer_size(self.bind_buf)
             .max_flow_id_retries(self.retries)
+            .keepalive_interval(if self.keepalive_ms[0] == 0 { penguin_mux::timing::OptionalDuration::NONE } else { Duration::from_millis(self.keepalive_ms[0]).into() })
+            .keepalive_timeout(if self.keepalive_ms[1] == 0 { penguin_mux::timing::OptionalDuration::NONE } else { Duration::from_millis(self.keepalive_ms[1]).into() })
     }
 }
 #[derive(Serialize, Deserialize, Clone, Debug)]
@@ -265,6 +270,10 @@ pub struct Plan {
     /// (the call takes `&self`); each takes one stream and then stops accepting
     #[serde(default)]
     pub extra_acceptors: [usize; 2],
+    /// end of the run in virtual ms (0 = the default, far beyond anything finite); needed when
+    /// something periodic (keepalive) keeps the clock busy for ever
+    #[serde(default)]
+    pub horizon_ms: u64,
 }
 impl Plan {
     pub fn base() -> Plan {
@@ -283,6 +292,7 @@ impl Plan {
             probe_leaks: false,
             late_ops: false,
             extra_acceptors: [0, 0],
+            horizon_ms: 0,
         }
     }
 }
@@ -1319,7 +1329,8 @@ async fn run_async(plan: Plan, sched: Sched, record: bool) -> DuoRun {
     }
     // the harness' own handles go away now; actors hold theirs
     let keep = muxes.clone();
-    let end = sim.run(3_000_000, HORIZON).await;
+    let horizon = if plan.horizon_ms > 0 { Duration::from_millis(plan.horizon_ms) } else { HORIZON };
+    let end = sim.run(3_000_000, horizon).await;
     let mut probe_from = link.lock().unwrap().evs.len();
     // ---- leak probe: Acknowledge(id, 0) for every id ever seen, towards both endpoints
     if plan.probe_leaks && end == End::Quiescent {
